@@ -414,7 +414,128 @@ func (q *tsParser) typ() string {
 	return "(.name " + tsId(q.ident()) + ")"
 }
 
+// the local names of the TypeScript functions in order of declaration (parameters, then `var`/`let`/`const`); a consistent
+// renaming of locals in the emitted text is undone by tsCanonLocals
+var tsLocals = map[string][]string{
+	"PushStateSym": {"state"}, "PopStateSym": {"num"}, "initialize": {},
+	"Parser":         {"input", "currentPos", "val", "model", "lookAhead", "state", "action", "sym", "SymTy", "gotoState"},
+	"fetchLookAhead": {"input", "model", "token"},
+	"ReduceFunc":     {"reduceIndex", "dollarDolar", "topIndex"},
+}
+
+// tsCanonLocals renames, in the tokens of the function that starts at q.p (at `function`), the locally declared names to
+// the canonical ones by order of declaration — only if their number matches and the renaming is one-to-one and captures
+// no other name of the text; member names (`x.f`) and object-literal keys are left alone.
+func (q *tsParser) tsCanonLocals(name string) {
+	canon, ok := tsLocals[name]
+	if !ok {
+		return
+	}
+	// the extent of the function: up to the brace that closes its body
+	i, par, seen := q.p, 0, false
+	for i < len(q.toks) { // the brace that opens the body: the first `{` outside the parameter parentheses, after them
+		if q.toks[i].kind == "p" && q.toks[i].text == "(" {
+			par++
+			seen = true
+		} else if q.toks[i].kind == "p" && q.toks[i].text == ")" {
+			par--
+		} else if q.toks[i].kind == "p" && q.toks[i].text == "{" && par == 0 && seen {
+			break
+		}
+		i++
+	}
+	depth, end := 0, i
+	for ; end < len(q.toks); end++ {
+		if q.toks[end].kind == "p" && q.toks[end].text == "{" {
+			depth++
+		}
+		if q.toks[end].kind == "p" && q.toks[end].text == "}" {
+			depth--
+			if depth == 0 {
+				break
+			}
+		}
+	}
+	var decls []int
+	nest := 0
+	for k := q.p; k < i; k++ { // parameters: identifiers followed by `:` directly inside the parameter parentheses (not inside a type literal)
+		if q.toks[k].kind == "p" && (q.toks[k].text == "(" || q.toks[k].text == "{" || q.toks[k].text == "[") {
+			nest++
+		}
+		if q.toks[k].kind == "p" && (q.toks[k].text == ")" || q.toks[k].text == "}" || q.toks[k].text == "]") {
+			nest--
+		}
+		if nest == 1 && q.toks[k].kind == "id" && k > q.p+1 && k+1 < i && q.toks[k+1].kind == "p" && q.toks[k+1].text == ":" &&
+			(q.toks[k-1].text == "(" || q.toks[k-1].text == ",") {
+			decls = append(decls, k)
+		}
+	}
+	for k := i; k < end; k++ {
+		if q.toks[k].kind == "kw" && (q.toks[k].text == "var" || q.toks[k].text == "let" || q.toks[k].text == "const") && q.toks[k+1].kind == "id" {
+			decls = append(decls, k+1)
+		}
+	}
+	if len(decls) != len(canon) {
+		return
+	}
+	fwd, back := map[string]string{}, map[string]string{}
+	same := true
+	for n, k := range decls {
+		a := q.toks[k].text
+		if c, ok := fwd[a]; ok && c != canon[n] {
+			return
+		}
+		if b, ok := back[canon[n]]; ok && b != a {
+			return
+		}
+		fwd[a], back[canon[n]] = canon[n], a
+		if a != canon[n] {
+			same = false
+		}
+	}
+	if same {
+		return
+	}
+	isName := func(k int) bool { // an identifier in a position where it names a variable (not `x.f`, not a key `{k : v}`)
+		if q.toks[k].kind != "id" {
+			return false
+		}
+		if k > 0 && q.toks[k-1].kind == "p" && q.toks[k-1].text == "." {
+			return false
+		}
+		isDecl := false
+		for _, d := range decls {
+			if d == k {
+				isDecl = true
+			}
+		}
+		if !isDecl && k+1 < len(q.toks) && q.toks[k+1].kind == "p" && q.toks[k+1].text == ":" {
+			return false
+		}
+		return true
+	}
+	for k := q.p; k <= end && k < len(q.toks); k++ {
+		if isName(k) {
+			if _, isLocal := fwd[q.toks[k].text]; !isLocal {
+				if _, clash := back[q.toks[k].text]; clash {
+					return // a canonical name is also a non-local name of the text: it would be captured
+				}
+			}
+		}
+	}
+	for k := q.p; k <= end && k < len(q.toks); k++ {
+		if isName(k) {
+			if c, ok := fwd[q.toks[k].text]; ok {
+				q.toks[k].text = c
+			}
+		}
+	}
+}
+
 func (q *tsParser) function() tsFn {
+	if q.is("kw", "function") && q.p+1 < len(q.toks) {
+		q.tsCanonLocals(q.toks[q.p+1].text)
+	}
 	q.expect("kw", "function")
 	name := q.ident()
 	tsId(name)
